@@ -108,5 +108,6 @@ func (o *fieldOptions) toOptionsWithContext(key string, m Valuer, fullName strin
 		Options:    o.Options,
 		Default:    o.Default,
 		EnvVar:     o.EnvVar,
+		Range:      o.Range,
 	}, nil
 }
